@@ -173,6 +173,7 @@ type rootCtx struct {
 	cellN     int
 	nowN      int
 	nows      []*Term
+	lastNow   *Term
 	inputs    []*Term
 	candObls  map[string][]*Obligation
 	accepted  []string // accepted auto invariants (descriptions)
